@@ -26,7 +26,7 @@ func (p *c02) Rule() string {
 }
 
 func (p *c02) Directed() []string {
-	return []string{"parent-refs-after-wait", "subflow-waiting-parent-paused", "results-overwritten", "webhook-result-then-wait", "batch-open-ticket-after-wait", "batch-start-session-after-wait", "missing-child-flow-on-reread", "msg-trigger-input-after-wait", "environment-refreshed-on-resume", "contact-refreshed-on-resume"}
+	return []string{"parent-refs-after-wait", "subflow-waiting-parent-paused", "results-overwritten", "webhook-result-then-wait", "batch-open-ticket-after-wait", "batch-start-session-after-wait", "missing-child-flow-on-reread", "msg-trigger-input-after-wait", "environment-refreshed-on-resume", "contact-refreshed-on-resume", "trigger-params-default-key", "datetime-field-dst-arithmetic", "date-only-field-time-fill", "long-path-visit-count", "dial-waits-resume-limit", "long-localized-category"}
 }
 
 func (p *c02) Floors(tier string) []string {
@@ -103,6 +103,49 @@ func (p *c02) directed(name string) *gen.Scenario {
 		ct["fields"].(gen.M)["joined"] = gen.M{"text": "2017-12-31T23:30:00Z", "datetime": "2017-12-31T23:30:00Z"}
 		return &gen.Scenario{Assets: d.BaseAssets(d.Flow("A", "messaging", d.Node("a0", []any{d.SendMsg("m0", txt)}, nil, d.Exit("a0x", "a1")), d.WaitNode("a1", "a2", nil), d.Node("a2", []any{d.SendMsg("m", txt), act("r", "set_run_result", gen.M{"name": "Snap", "value": txt})}, nil, d.Exit("a2x", "a1")))),
 			Trigger: d.Manual("A", ct), Resumes: rs}
+	case "trigger-params-default-key":
+		t := d.Manual("A", nil)
+		t["params"] = gen.M{"__default__": "dflt", "a": 1, "nested": gen.M{"__default__": gen.M{"x": 1}, "b": "two"}, "list": []any{gen.M{"__default__": 5}}}
+		txt := "@trigger.params @(json(trigger.params)) @trigger.params.a @trigger.params.nested @(json(trigger.params.nested)) @(trigger.params.list[0]) @(count(trigger.params))"
+		return &gen.Scenario{Assets: d.BaseAssets(d.Flow("A", "messaging", d.Node("a0", []any{d.SendMsg("m0", txt)}, nil, d.Exit("a0x", "a1")), d.WaitNode("a1", "a2", nil), d.Node("a2", []any{d.SendMsg("m", txt)}, nil, d.Exit("a2x", "a1")))),
+			Trigger: t, Resumes: []gen.M{d.MsgResume(0, "x"), d.MsgResume(1, "y")}}
+	case "datetime-field-dst-arithmetic", "date-only-field-time-fill":
+		t := d.Manual("A", nil)
+		t["environment"].(gen.M)["timezone"] = "America/New_York"
+		val := "2018-03-10T23:30:00-05:00"
+		if name == "date-only-field-time-fill" {
+			val = "2018-03-10"
+		}
+		txt := "@fields.joined @(datetime_add(fields.joined, 1, \"D\")) @(datetime_add(fields.joined, 1, \"M\")) @(datetime_add(fields.joined, 24, \"h\")) @(format_datetime(fields.joined, \"YYYY-MM-DD tt:mm:ss.fffffffff ZZZ\")) @(epoch(fields.joined)) @(tz(fields.joined)) @(tz_offset(fields.joined)) @(format_datetime(datetime_add(fields.joined, 8, \"M\"))) @(datetime_diff(fields.joined, contact.created_on, \"s\"))"
+		return &gen.Scenario{Assets: d.BaseAssets(d.Flow("A", "messaging",
+			d.Node("a0", []any{act("f", "set_contact_field", gen.M{"field": gen.M{"key": "joined", "name": "Joined"}, "value": val}), d.SendMsg("m0", txt)}, nil, d.Exit("a0x", "a1")),
+			d.WaitNode("a1", "a2", nil), d.Node("a2", []any{d.SendMsg("m", txt), act("r", "set_run_result", gen.M{"name": "When", "value": "@(datetime_add(fields.joined, 1, \"M\"))"})}, nil, d.Exit("a2x", "a1")))),
+			Trigger: t, Resumes: []gen.M{d.MsgResume(0, "x"), d.MsgResume(1, "y")}}
+	case "long-path-visit-count":
+		// a retry loop long enough for a run's path to exceed 100 steps over several sprints
+		var rs []gen.M
+		for i := 0; i < 60; i++ {
+			rs = append(rs, d.MsgResume(i%25, fmt.Sprint("wrong ", i)))
+		}
+		return &gen.Scenario{Assets: d.BaseAssets(d.Flow("A", "messaging", d.WaitNode("a1", "a2", nil), d.Node("a2", []any{d.SendMsg("m", "Attempt @node.visit_count @(count(run.path)) @run.path")}, nil, d.Exit("a2x", "a1")))),
+			Trigger: d.Manual("A", nil), Resumes: rs}
+	case "dial-waits-resume-limit":
+		dc := d.Cat("Any", "v1any")
+		var rs []gen.M
+		for i := 0; i < 12; i++ {
+			rs = append(rs, d.Dial(i, []string{"answered", "busy", "no_answer", "failed"}[i%4]))
+		}
+		t := d.Manual("V", nil)
+		t["call"] = gen.M{"uuid": gen.NamedUUID("call"), "channel": gen.M{"uuid": gen.NamedUUID("chan:android"), "name": "Android"}, "urn": "tel:+12065551212"}
+		return &gen.Scenario{Assets: d.BaseAssets(d.Flow("V", "voice", d.Node("v1", []any{d.Action("v1s", "say_msg", gen.M{"text": "dialing @node.visit_count"})}, d.Switch("@resume.dial.status", []gen.M{dc}, dc, nil, gen.M{"type": "dial", "phone": "+12065551212"}, "Dial"), d.Exit("v1any", "v1")))),
+			Trigger: t, Resumes: rs, Options: gen.Options{Set: true, MaxSteps: 100, MaxResumes: 10, MaxTemplateChars: 10000, MaxFieldChars: 640, MaxResultChars: 640}}
+	case "long-localized-category":
+		cat := d.Cat("Yes", "r1yes")
+		f := d.Flow("A", "messaging", d.Node("r1", nil, d.Switch("@input.text", []gen.M{cat}, cat, nil, gen.M{"type": "msg"}, "Join"), d.Exit("r1yes", "a2")), d.Node("a2", []any{act("r", "set_run_result", gen.M{"name": "Other", "value": "x", "category": "Short"}), d.SendMsg("m", "@results")}, nil, d.Exit("a2x", "r1")))
+		f["localization"] = gen.M{"spa": gen.M{cat["uuid"].(string): gen.M{"name": []string{"Una categoría con un nombre muy muy largo de verdad, más de treinta y seis"}}, gen.NamedUUID("action:r"): gen.M{"category": []string{"línea uno\nlínea dos"}}}}
+		ct := d.Contact()
+		ct["language"] = "spa"
+		return &gen.Scenario{Assets: d.BaseAssets(f), Trigger: d.Manual("A", ct), Resumes: []gen.M{d.MsgResume(0, "x"), d.MsgResume(1, "y")}}
 	case "msg-trigger-input-after-wait":
 		return &gen.Scenario{Assets: d.BaseAssets(d.Flow("A", "messaging", d.Node("a0", []any{d.SendMsg("m0", "@input @input.urn @input.channel")}, nil, d.Exit("a0x", "a1")), d.WaitNode("a1", "a2", sp("a2")), d.Node("a2", []any{d.SendMsg("m", "@input @input.text @input.created_on @(json(input)) @trigger.keyword @resume.type")}, nil, d.Exit("a2x", "a1")))),
 			Trigger: d.MsgTrigger("A", nil, "start now"), Resumes: []gen.M{d.MsgResume(0, "x"), d.Timeout(1), d.MsgResume(2, "z")}}
